@@ -1253,6 +1253,14 @@ func (p *parser) parseBlock(block text.BlockReader, parent ast.Node, pc Context)
 			text = ast.NewTextSegment(diff)
 		} else {
 			text = ast.NewTextSegment(diff.TrimRightSpace(source))
+			if text.Segment.IsEmpty() {
+				// the trailing spaces may already have been flushed into the previous text node
+				// (an inline parser triggered by a space): trim them there too
+				if t, ok := parent.LastChild().(*ast.Text); ok && t.Segment.Stop == diff.Start &&
+					!t.IsRaw() && !t.SoftLineBreak() && !t.HardLineBreak() {
+					t.Segment = t.Segment.TrimRightSpace(source)
+				}
+			}
 		}
 		text.SetSoftLineBreak(lineBreakFlags&lineBreakSoft != 0)
 		text.SetHardLineBreak(lineBreakFlags&lineBreakHard != 0)
